@@ -617,6 +617,11 @@ class StandardObserver:
                                       list(ns.acceptance_history), float(ns.logLmin), float(ns.logLmax),
                                       float(ns.condition), bool(ns.uninformed_sampling))))
         parts["evals"] = int(ns.model.likelihood_evaluations)
+        # cumulative likelihood evaluation time (restored from the pickle in the resumed process)
+        try:
+            parts["ll_time"] = round(float(ns.model.likelihood_evaluation_time.total_seconds()), 4)
+        except Exception:  # noqa
+            parts["ll_time"] = None
         return parts
 
 
